@@ -280,6 +280,35 @@ def _ctor(spec, ctx):
                 if a.algo_parameters["n_burn_in_iter"] != count:
                     ctx.violation("sa/burn-in-length", f"explicit count {count} (fraction {frac}, n_iter {n_iter}) resolved to {a.algo_parameters['n_burn_in_iter']}",
                                   {"index": -1, "n_iter": n_iter, "count": count, "frac": frac})
+    # one settings object used for several algorithms, its iteration count (or fraction) changed by the caller in between: each algorithm
+    # resolves the length from the settings as they are when it is built
+    r2 = ctx.rng("ctor-reuse")
+    for j in range(60):
+        n1, n2 = int(r2.integers(2, 80)), int(r2.integers(2, 80))
+        f1, f2 = float(r2.integers(0, 101)) / 100.0, float(r2.integers(0, 101)) / 100.0
+        with warnings.catch_warnings():
+            warnings.simplefilter("ignore")
+            try:
+                st_ = AlgorithmSettings("mcmc_saem", n_iter=n1, n_burn_in_iter_frac=f1, progress_bar=False)
+                a1 = algorithm_factory(st_)
+                st_.parameters["n_iter"] = n2
+                if j % 2:
+                    st_.parameters["n_burn_in_iter_frac"] = f2
+                else:
+                    f2 = f1
+                a2 = algorithm_factory(st_)
+            except LeaspyAlgoInputError as e:
+                ctx.violation("sa/admissible-configuration-refused", f"reused settings object refused: {str(e)[:100]}", {"index": -2, "j": j})
+                continue
+        n_checked += 1
+        ctx.count("burn_in_len_reused_settings_checks")
+        for a_, n_, f_ in ((a1, n1, f1), (a2, n2, f2)):
+            allowed = {int(f_ * n_), math.floor(Fraction(f_) * n_), math.floor(Fraction(round(f_ * 100), 100) * n_)}
+            if a_.algo_parameters["n_burn_in_iter"] not in allowed:
+                ctx.violation("sa/burn-in-length", f"settings object reused for a second algorithm (n_iter {n1}->{n2}, fraction {f1}->{f2}): memory-less phase of the "
+                              f"algorithm built with n_iter={n_}, fraction={f_} resolved to {a_.algo_parameters['n_burn_in_iter']}, expected {sorted(allowed)}",
+                              {"index": -2, "j": j, "n_iter": [n1, n2], "frac": [f1, f2]})
+                break
     ctx.count("burn_in_len_grid_checks", n_checked)
     ctx.evaluated(n_checked)
     ctx.distinct_add(n_checked)
